@@ -64,7 +64,10 @@ def run(facts, tr, rep):
             seen.add(b.def_)
             g = graph(b)
             if any(c.name == "channel" and "mpsc" in (c.def_ or "") for c in g.calls()):
-                hb = b
+                # the body the channel lives in: as written, or - when that body is an async helper awaited in
+                # place by exactly one caller - the caller it was inlined into
+                if hb is None or (getattr(facts, "absorbed", None) is not None and facts.absorbed(hb) and not facts.absorbed(b)):
+                    hb = b
             for c in g.calls():
                 for d in c.targets_def():
                     b2 = facts.bodies.get(d)
